@@ -251,7 +251,7 @@ def explain(case, spec, ctx):
     df = set(spec.get("docflags", []))
     if "ns-order-dependent" in flags:
         tags.append("namespace-node-order(implementation-dependent)")
-    if "mixed-ns-order" in flags:
+    if "ns-order-used" in flags:
         tags.append("namespace-nodes-document-order")
     if "nsaxis-prefixed-test" in flags:
         tags.append("namespace-axis-prefixed-test")
@@ -348,13 +348,18 @@ def run_doc_ctypes(path):
             if v != got_v:
                 cat = t
         if cat == "nodeset-order":
-            strip = lambda xs: [x for x in xs if isinstance(x, int)]
-            if strip(v) == strip(got_v):
-                cat = "nodeset-order(namespace nodes only)"
+            # same set, different order of the returned array: not observable in
+            # XPath itself (a node-set is unordered); libxml2 does not fully sort
+            # sets that contain namespace nodes
+            has_ns = any(not isinstance(x, int) for x in v)
+            cat = "array-order-only(%s)" % ("with namespace nodes" if has_ns else "NO namespace nodes")
         if cat:
             tags = explain(case, spec, ctx)
             if cat.startswith("ref-error(Type:filter)"):
                 tags.append("predicate-on-non-node-set")
+            elif cat.startswith("ref-error("):
+                # libxml2 skipped the erroneous sub-expression (lazy evaluation); listed for review
+                tags.append("error-laziness(review)")
             if tags:
                 cat = "explained[%s]: %s" % (",".join(tags), cat)
         if cat:
